@@ -1,22 +1,40 @@
 CONFIG = dict(
     id="C11",
-    engine="pure (+ translator)",
-    technique="Lean 4 theorems over a hand-written model of ModList.Filter / baseapp.App (state machine driven by arbitrary completion-event "
-              "sequences) + differential correspondence with the real ModList/App under scripted modules + a go/ast translator that regenerates "
-              "the control-flow terms of every shipped module's Start/Stop on each run, over which exactly-once completion is decided by the kernel",
+    engine="pure (+ translator; virtual clock for the clock=v cases)",
+    technique="Lean 4 theorems over a hand-written model of ModList.Filter, the callback wrapper of ModList.Start/Stop (panic recovery), baseapp.App and "
+              "node/app.App.StartNode/StopNode around baseapp.LaunchApp (state machines driven by arbitrary sequences of module actions / completion "
+              "events) + differential correspondence with the real ModList / App / node under scripted modules, partly under testing/synctest's "
+              "virtual clock + a go/ast translator that regenerates the control-flow terms of every shipped module's Start/Stop on each run, over "
+              "which exactly-once completion is decided by the kernel",
     level_text="Machine-checked proof in Lean 4 that, for every module list length and every chronological sequence of completion events "
                "(synchronous or delayed, from any goroutine) in which each started module completes at most once, the log of ModList.Filter is "
                "canonical: modules entered one at a time in registration order (reverse for Stop), each directly after its predecessor's success, "
                "the first failure is followed by exactly finish(false), finish is invoked at most once, and exactly once (last, with the overall "
-               "outcome) when every started module completes; unconditionally no module is entered twice or out of order and mods[index] stays in range; "
-               "App.Start/Stop act only from Prepared/Normal and the App's start phase is one Filter run. The Start/Stop bodies of all modules under "
-               "node/modules are translated from the working tree on every run into a small statement language and the kernel decides that every path "
-               "calls next exactly once. The model is tied to the real code by ~20k generated ops per run (all lengths 0-5 x failure position x "
-               "sync/delayed mask x phase exhaustively, random cases incl. panics and double completion) compared log by log.",
+               "outcome) when every started module completes; unconditionally no module is entered twice or out of order and mods[index] stays in range. "
+               "ModList.Start/Stop's wrapper is modelled on top (module actions report / panic): a module that panics before reporting counts as its "
+               "failure report - finish(false) exactly once, no later module entered, whatever arrives later (late reports of that module, panics "
+               "after a report) has no effect; with 'every entered module reports at most once and reports or panics' finish is invoked exactly once "
+               "(D21 fixed; the pre-fix behaviour is kept as wrunOld with the witness d21_witness). App.Start/Stop act only from Prepared/Normal, "
+               "the App's start phase is one Filter run and so is its stop phase, which is begun at most once when the start phase's modules keep the "
+               "discipline (app_stop_once: no side condition left). node/app: StartNode's three refusals (no nodes table, unknown id, no launch mode) "
+               "do nothing at all, an accepted StartNode is App.Start over the modules the launch mode registers, the caller's callbacks are invoked "
+               "exactly when and with what the App's phases report, after StartServices/StartNodeCtrl - also on failure. The Start/Stop bodies of all "
+               "modules under node/modules are translated from the working tree on every run into a small statement language; the kernel decides that "
+               "every path calls next exactly once, all six bodies are found by name, and (shipped_module_one_next / once_modules_phase_completes) any "
+               "path cut short by a panic of one of its statements still gives exactly one next call of the wrapper, which composes to exactly one "
+               "finish for any list of such modules. The model is tied to the real code by ~20k generated ops per run (all lengths 0-5 x failure "
+               "position x sync/delayed mask x phase exhaustively; panics before/after the report at every position incl. late reports; silences of "
+               "1 ms .. 25 h under a virtual clock during which nothing may happen; node refusals and repeated StartNode; random cases incl. double "
+               "completion) compared log by log.",
     level_note="Trusted: Lean kernel; the harness/driver line protocol; the translator (go/ast, conservative: constructs it does not interpret and that "
                "involve the callback become Stmt.bad and fail the obligation; branch conditions are opaque and independent; opaque statements are "
-               "assumed to terminate and not to panic). Concurrent invocations of next from two goroutines at the same instant (a data race on the "
-               "captured index, possible only if a module completes twice) are not modelled: the harness serialises completions.",
+               "assumed to terminate - a synchronous panic of one is covered by the wrapper theorems, a panic on another goroutine is not). Concurrent "
+               "invocations of next from two goroutines at the same instant (a data race on the captured index / the wrapper's flags, possible only "
+               "if a module completes twice or reports while its Start/Stop is panicking) are not modelled: the harness serialises completions. "
+               "ModList.Filter's non-reentrant lock is not modelled: a Stop/Start/AddModule issued by a completion callback or a module while the "
+               "synchronous chain of a Filter call is still running blocks forever in the Go code (reproduced; reported as a suspected defect), "
+               "such cases are not generated and start_callback_sees_normal is about a Stop issued outside that chain. The wrapper is composed with "
+               "the App at the level of next calls (AOp.call = the wrapper's next), not by a separate App-level theorem.",
     gen=["cd harness && go1.26 run ./extract/c11 -out ../lean/Cell2v/Gen/C11Modules.lean",
          # self-test of the translator's conservativeness on a zoo of 27 constructs (testdata/root/node/modules/zoo)
          "cd harness && go1.26 test -vet=off ./extract/c11"],
@@ -25,9 +43,15 @@ CONFIG = dict(
     driver_root="Cell2v.Driver.C11",
     audit="Audit/C11.lean",
     required_theorems=["start_order", "stop_reverse", "one_at_a_time", "first_failure_stops", "finish_at_most_once",
-                       "finish_exactly_once", "disciplined_log_canonical", "growing_list_canonical", "late_modules_started", "stop_ignores_growth", "order_unconditional", "index_in_range",
+                       "finish_exactly_once", "disciplined_log_canonical",
+                       "modlist_phase_disciplined", "panic_before_report_fails_phase", "modlist_phase_completes", "late_report_ignored", "d21_witness",
+                       "growing_list_canonical", "late_modules_started", "stop_ignores_growth", "order_unconditional", "index_in_range",
+                       "stop_visits_unstarted_module_witness",
                        "app_state_guard", "start_callback_sees_normal", "app_start_once", "app_stop_only_after_start_success", "app_start_phase_is_filter", "app_stop_phase_is_filter",
-                       "shipped_modules_complete_once", "shipped_modules_found"],
+                       "app_stop_once", "app_stop_phase_is_filter_disciplined",
+                       "node_refusals_silent", "node_callbacks_are_app_reports", "node_services_then_fin", "node_start_is_app_start",
+                       "node_start_reports_exactly_once", "second_startnode_witness",
+                       "shipped_modules_complete_once", "shipped_modules_found", "shipped_modules_named", "shipped_module_one_next", "once_modules_phase_completes"],
     harness_pkg="./c11",
     mode="diff",
     reset_prefix="reset",
@@ -37,24 +61,26 @@ CONFIG = dict(
                      dict(name="seed2", env={"VERIF_N": "40000", "VERIF_MAXN": "3"}, seed_offset=1000, timeout=800)],
     },
     trivial=r"^(ok|-|noop|over|bad-op)?$",
-    rule="cases = `reset` + ops on one module list (plain ModList, baseapp.App, or node/app.App driven through StartNode/StopNode with a launch mode of the harness; node cases cycle through service lists none / all configured / one missing from the `services:` map first, middle, last / all missing, so that StartServices runs its skip path inside the completion closure): (a) every path of every translated shipped Start/Stop body replayed as a scripted module at "
-         "each position of a 3-module list; (b) exhaustive: every list length 0..5 (thorough 0..7) x failure position or none x every "
-         "synchronous/delayed mask x phase, delayed modules completed through another goroutine / a timer / directly; (b2) re-entrant callbacks: the start-completion callback issues Stop directly or through a goroutine it waits for, the stop-completion callback issues Start/Stop (only patterns that do not run under ModList.Filter's non-reentrant lock: module 0 completes later), n 1..4 x object x callback x failure position x delays; (b3) a module itself issues Stop/Start from inside its Start/Stop (directly, or by handing a Stop to another goroutine) at every position, phase, sync/delayed chain, on App and node; (b4) growing lists: a module registers a further module (AddModule) right before completing — from its delayed completion or synchronously in a chain outside Filter — at every position, and during a stop phase; node cases also cycle the launch-mode name (registered / empty / unregistered with a default launch func); (b5) the real ClusterModule / WelcomeModule executed at every position of a node (clustering off: success; clustering on with a port-less own address: StartMember fails early, no etcd needed) against the outcome the translated bodies promise; (b6) delayed completions delivered by the application's own run service timer (GetTimerMgr().After) in both phases; (c) random cases from one PRNG "
-         "(VERIF_SEED): length 0..6, App or plain ModList, scripts T/F/delayed/panic-before/panic-after, premature or repeated Start/Stop, and in "
+    rule="cases = `reset` + ops on one module list (plain ModList, baseapp.App, or node/app.App driven through StartNode/StopNode with a launch mode of the harness; node cases cycle through service lists none / all configured / one missing from the `services:` map first, middle, last / all missing, so that StartServices runs its skip path inside the completion closure; every created service is observed, V<i>): (a) every path of every translated shipped Start/Stop body replayed as a scripted module at "
+         "each position of a 3-module list, also cut short by a panic before / after its report; (b) exhaustive: every list length 0..5 (thorough 0..7) x failure position or none x every "
+         "synchronous/delayed mask x phase, delayed modules completed through another goroutine / a timer / directly; (b0) panics: a module panics before reporting (holding on to its callback: a late report T/F follows) or after reporting, n 1..4 x position x phase x object, in a synchronous chain and in a chain outside Filter; (b1) slow: under the virtual clock (clock=v: the case runs inside one testing/synctest bubble) one module stays silent for 1 ms .. 25 h (`wait`) at every position and phase of a ModList / App - nothing may happen meanwhile - and reports then; waits after the phase is over; (b2) re-entrant callbacks: the start-completion callback issues Stop directly or through a goroutine it waits for, the stop-completion callback issues Start/Stop (only patterns that do not run under ModList.Filter's non-reentrant lock: module 0 completes later), n 1..4 x object x callback x failure position x delays; (b3) a module itself issues Stop/Start from inside its Start/Stop (directly, or by handing a Stop to another goroutine) at every position, phase, sync/delayed chain, on App and node; (b4) growing lists: a module registers a further module (AddModule) right before completing — from its delayed completion or synchronously in a chain outside Filter — at every position, and during a stop phase; node cases also cycle the launch-mode name (registered / empty / unregistered with a default launch func); (b5) the real ClusterModule / WelcomeModule executed at every position of a node (clustering off: success; clustering on with a port-less own address: StartMember fails early, no etcd needed) against the outcome the translated bodies promise; (b6) delayed completions delivered by the application's own run service timer (GetTimerMgr().After) in both phases; (b7) node: StartNode with an unknown node id, before Prepare, and (first corpus case of the process) without any launch mode - refused silently, the node stays startable; StartNode repeated before / after start-up and after Stop with an idempotent launch mode and with one that registers its modules every time (the list grows, Stop visits never-started modules); (c) random cases from one PRNG "
+         "(VERIF_SEED): length 0..6, App or plain ModList or node, a third of the non-node cases under the virtual clock with random silences, scripts T/F/delayed/panic-before/panic-after, premature or repeated Start/Stop, and in "
          "`neg` cases double/late/stale completions. An op is non-trivial when its observation contains at least one log token "
          "(not ok / - / noop / over); distinct = distinct (op, observation) pairs",
     trusted_base=[
         "Lean 4.33.0 kernel; axioms of every property theorem audited on each run (allowed: propext, Classical.choice, Quot.sound)",
-        "hand-written model lean/Cell2v/Model/Modules.lean (ModList.Filter closures, App state guard) tied to the Go code by the differential run of this check (harness/c11 + modeld_c11)",
+        "hand-written model lean/Cell2v/Model/Modules.lean (ModList.Filter closures, the Start/Stop wrapper with its two flags, App state guard, node/app StartNode/StopNode + LaunchApp) tied to the Go code by the differential run of this check (harness/c11 + modeld_c11)",
         "translator harness/extract/c11 (go/ast, ~500 lines): Start/Stop bodies under node/modules -> Stmt terms (lean/Cell2v/Gen/C11Modules.lean) and call sequences per path (JSON replayed through the real ModList)",
-        "harness canonicalisation: log tokens only (module index, phase, bool); panics escaping the code under test mapped to 'panic', no return within 10 s to 'blocked'",
+        "harness canonicalisation: log tokens only (module index, phase, bool, service index, PrepareModules marker); panics escaping the code under test mapped to 'panic', no return within 4 s (20 s real time for a case under the virtual clock) to 'blocked'",
+        "testing/synctest (go1.26) for the clock=v cases: time.AfterFunc / Sleep / After inside the bubble run on a virtual clock",
     ],
     assumptions=[
-        "invocations of next are serialised (no two goroutines inside next at the same instant); under at-most-once completion only one module is outstanding, so this holds by the theorem itself",
-        "AddModule during a phase is modelled between completion events only (it takes the same lock as Filter, so it cannot run inside Filter's synchronous chain); the App-level theorems are for a fixed list; finish itself returns normally",
-        "shipped modules: branch conditions are independent and opaque; statements that do not mention the callback terminate and do not panic; a callback handed to other code (timer, helper function) is not interpreted and fails the obligation",
+        "invocations of next (and of one module's wrapped callback and its panic handler) are serialised (no two goroutines inside next at the same instant); under at-most-once completion only one module is outstanding, so this holds by the theorem itself",
+        "AddModule during a phase is modelled between completion events only (it takes the same lock as Filter: inside Filter's synchronous chain it would block forever); the App-level theorems are for a fixed list; finish itself returns normally and does not re-enter the list from inside a synchronous chain",
+        "shipped modules: branch conditions are independent and opaque; statements that do not mention the callback terminate (ClusterModule.Start blocks in StartMember while etcd is unreachable: then the module never completes and neither does the phase) and panic, if at all, on the goroutine that runs Start/Stop; a callback handed to other code (timer, helper function) is not interpreted and fails the obligation",
+        "each module's Start/Stop is unwound by at most one panic per phase (a Go function panics out once) - part of MDisciplined",
         "App.Prepare is called once per App (a second Prepare re-opens the Start guard by design)",
         "a completion callback that re-enters Start/Stop runs outside ModList.Filter (on the unchanged tree a Stop issued from the start callback of an all-synchronous module list deadlocks on Filter's non-reentrant lock; such cases are not generated)",
-        "node/app: StartNode is called once per node (the launch mode's PrepareModules runs before the App guard, a second StartNode would add the modules again); StartServices/StartNodeCtrl run with no services and node control off",
+        "node/app: an accepted StartNode whose launch mode registers modules happens once per node (node_start_is_app_start; a second one registers them again before the App guard refuses it: second_startnode_witness, exercised by the harness); StartNodeCtrl runs with node control off; nodes.yaml is readable (config.LoadNodes never returns nil: the `nodes == nil` refusal is reached only without Prepare)",
     ],
 )
